@@ -23,7 +23,7 @@ from sim import simnet
 from sim import tsched
 from sim import world as W
 
-SCENARIOS = ('S1', 'S2', 'S3', 'S4', 'S5', 'RND', 'S6')
+SCENARIOS = ('S1', 'S2', 'S3', 'S4', 'S5', 'RND', 'S6', 'S7')
 PEER_URL = 'http://peer.test/authz'
 NCHUNK = 16
 
@@ -169,6 +169,33 @@ def gen_instance(rng, sc):
             edits = [{'op': 'touch', 'path': 'etc/policy.d/a.yaml',
                       'dt': rng.choice(W.DTS)}]
         _finish(w, ['extra'])
+    elif sc == 'S7':
+        # policy directories only, no main policy file: a directory edit
+        # resets the store to empty before directories and defaults return
+        x, y, dv = _distinct_roles(rng, 3)
+        defaults = [_plain('svc:get', x), _plain('svc:list', y)]
+        w = _base_world(rng, defaults,
+                        dirs=('policy.d', 'extra.d')[:rng.choice((1, 2))])
+        fn = 'etc/policy.d/' + rng.choice(W.DIR_FILE_POOL[:4])
+        base = {'extra': dv}
+        if rng.random() < 0.6:
+            base['default'] = ['true']          # permissive default rule
+        w['files'][fn] = _file(base, rng)
+        _finish(w, ['extra', 'default'])
+        r = rng.random()
+        if r < 0.4:
+            edits = [{'op': 'touch', 'path': fn, 'dt': rng.choice(W.DTS)}]
+        elif r < 0.8:
+            edits = [_edit(rng, fn, dict(base, other=x))]
+            w['file_only'].append('other')
+            w['universe'].append('other')
+            w['probe_names'].insert(0, 'other')
+        else:
+            edits = [_edit(rng, 'etc/policy.d/zz-new.yaml', {'other': x},
+                           kind='write')]
+            w['file_only'].append('other')
+            w['universe'].append('other')
+            w['probe_names'].insert(0, 'other')
     elif sc == 'S6':
         # a remote check followed by rule: references: while the decider
         # waits for the peer's answer the file is edited and reloaded
@@ -580,10 +607,11 @@ def sweep_plans(inst, dry, chunk, mid):
 
 
 NVARIANTS = 5
+SWEEP_SCENARIOS = ('S1', 'S2', 'S3', 'S4', 'S7')
 
 
 def sweep_variant(i):
-    v = (i // (NCHUNK * 4)) % NVARIANTS
+    v = (i // (NCHUNK * len(SWEEP_SCENARIOS))) % NVARIANTS
     if v == 4:
         return {'direct_load': False, 'mid': 'cold'}
     return {'direct_load': bool(v & 1), 'mid': bool(v & 2)}
@@ -591,8 +619,8 @@ def sweep_variant(i):
 
 def instance_for(base, i, mode):
     if mode == 'sweep':
-        sc = SCENARIOS[(i // NCHUNK) % 4]
-        inst_no = i // (NCHUNK * 4 * NVARIANTS)
+        sc = SWEEP_SCENARIOS[(i // NCHUNK) % len(SWEEP_SCENARIOS)]
+        inst_no = i // (NCHUNK * len(SWEEP_SCENARIOS) * NVARIANTS)
         rng = core.rng_for(base, 'C20', '%s:%d' % (sc, inst_no), 'sweep')
         inst = gen_instance(rng, sc)
         inst['threads'] = inst['threads'][:2]
@@ -695,8 +723,8 @@ def run_one(base, i, prop=None, mode='random'):
 
 PROPS = ('C20',)
 TIERS = {'C20': {
-    'quick': [('sweep', NCHUNK * 4 * NVARIANTS), ('random', 700)],
-    'thorough': [('sweep', NCHUNK * 4 * NVARIANTS * 12), ('random', 80000),
+    'quick': [('sweep', NCHUNK * 5 * NVARIANTS), ('random', 720)],
+    'thorough': [('sweep', NCHUNK * 5 * NVARIANTS * 12), ('random', 80000),
                  ('opcode', 4000)]}}
 
 
